@@ -107,6 +107,9 @@ structure ListObs where
   file : Option Bytes     -- content of data/filters/<id>.txt
   inForce : Nat           -- bit mask: which probe names the engine blocks/allows through this list
   rewritten : Bool        -- the file was replaced (new inode) during this refresh
+  /-- what a restart computes: `DNSFilter.load` (re-parse of the stored file) -/
+  reCount : Nat
+  reCrc : Nat
   deriving DecidableEq, Repr
 
 def refreshSpecWhy (i : Nat) (before : ListObs) (f : Fetch) (attempted : Bool) (after : ListObs) : Option String :=
@@ -138,6 +141,9 @@ def refreshSpecWhy (i : Nat) (before : ListObs) (f : Fetch) (attempted : Bool) (
          else some "stored-form-not-normal")
       else if after.count != (specLines data).length then some "count-is-not-number-of-rule-lines"
       else if after.checksum != crcLines 0 (specLines data) then some "checksum-is-not-crc-of-rule-lines"
+      -- "a normal form whose re-parse yields the same rule count and checksum"
+      else if after.reCount != after.count || after.reCrc != after.checksum then
+        some "restart-reparse-differs-from-recorded"
       else none
 
 /-- Monitor of one `set_url` request on list `i` (not a refresh, so the
@@ -190,6 +196,8 @@ def runHist (h : List (Req × List (Bool × Fetch))) (ls : List LState) : List L
 
 /-- What the harness observes of list `i` in model state `l`. -/
 def obsOf (i : Nat) (l : LState) (rew : Bool) : ListObs :=
-  ⟨l.flt.count, l.flt.checksum, l.flt.file, maskOf i l.inForce, rew⟩
+  ⟨l.flt.count, l.flt.checksum, l.flt.file, maskOf i l.inForce, rew,
+   match l.flt.file with | some out => (parse out true).st.count | none => 0,
+   match l.flt.file with | some out => (parse out true).st.crc | none => 0⟩
 
 end AGH.C15
